@@ -216,6 +216,47 @@ def check_lookups(ctx, dx, m, w, hexdata):
         want = sorted(x for x in all_fields if x[1] == nm)
         if got != [tuple(x) for x in want]:
             ctx.violation("lookup-field-regex", "get_encoded_field(name$) differs", {"name": nm, "got": got, "want": want, "dex": hexdata})
+    # the name argument is documented as a python regexp matched with re.match (prefix semantics): unanchored plain names, proper prefixes,
+    # wildcard patterns. Oracle: re.match of the same pattern on the model's names.
+    rng = ctx.rng("c05-patterns", len(all_methods), len(all_fields), len(hexdata))
+    mnames = sorted({x[1] for x in all_methods} | {x[1] for x in ref_methods})
+    fnames = sorted({x[1] for x in all_fields} | {x[1] for x in ref_fields})
+    pats = set()
+    for nm in rng.sample(mnames + fnames, min(6, len(mnames + fnames))):
+        pats.add(re.escape(nm))                       # unanchored: also matches longer names starting with nm
+        pats.add(re.escape(nm[:1]))                   # proper prefix
+        pats.add(".*" + re.escape(nm[-1:]) + "$")     # suffix
+        if nm.isidentifier():
+            pats.add(nm)                              # a plain identifier is a regexp too
+            pats.add(nm[: max(1, len(nm) - 1)])
+    for pat in sorted(pats):
+        try:
+            prog = re.compile(pat)
+        except re.error:
+            continue
+        ctx.count("lookups_by_pattern")
+        for what, call, pool, desc in (("get_encoded_method", dx.get_encoded_method, all_methods, True), ("get_encoded_field", dx.get_encoded_field, all_fields, False),
+                                       ("get_method", dx.get_method, None, True), ("get_field", dx.get_field, None, False)):
+            try:
+                res = call(pat)
+            except Exception as e:
+                ctx.violation("lookup-by-pattern-raises", "a regexp name lookup raises", {"call": what, "pattern": pat, "exc": exc_str(e), "dex": hexdata})
+                continue
+            if desc:
+                got = sorted((e.get_class_name(), e.get_name(), nospace(e.get_descriptor())) for e in res)
+            else:
+                got = sorted((e.get_class_name(), e.get_name(), e.get_descriptor()) for e in res)
+            if pool is all_methods:
+                want = sorted((x[0], x[1], "(%s)%s" % ("".join(x[2]), x[3])) for x in all_methods if prog.match(x[1]))
+            elif pool is all_fields:
+                want = sorted(tuple(x) for x in all_fields if prog.match(x[1]))
+            elif desc:
+                want = sorted(tuple(x) for x in ref_methods if prog.match(x[1]))
+            else:
+                want = sorted(tuple(x) for x in ref_fields if prog.match(x[1]))
+            if got != want:
+                ctx.violation("lookup-by-pattern-%s" % what, "%s(pattern) does not return exactly the items whose name re.match()es the pattern" % what,
+                              {"pattern": pat, "got": got[:12], "want": want[:12], "dex": hexdata})
 
 
 def shard(ctx, arg):
@@ -270,7 +311,7 @@ def run(ctx):
                 "distinct non-trivial = distinct (class count, #methods, #fields, shared names, code-less, wide, interfaces) with >=2 classes")
     ctx.assumptions = ["vf/model/dexw.py implements the DEX format specification (self-checked: sorted/unique ids, offsets, checksums)",
                        "method descriptors are compared with spaces removed (androguard prints '(I J)V'); lookups use androguard's spaced form"]
-    n = 300 if ctx.quick else 40000
+    n = 300 if ctx.quick else 200000
     per = n // 16 + 1
     ctx.run_shards(MOD, "shard", [[i, per] for i in range(16)], timeout=3000)
     ctx.require_counter("DEX_parsed", 100)
